@@ -140,6 +140,19 @@ EXTRA = {
     "C19": ("; order-domain evaluation of the regime predicates; sibling agreement of the regular and transition-zone branches (parameters, inputs, capped multipliers); both-regions rule", " R-cover: for every ordering of wage and thresholds at least one regime holds (no wage between the regimes); S-par: every rate parameter and input column the regular branch reads is also read by the transition-zone branch at every date; S-cap; OW: a parameter with differing east/west values is read on both sides."),
     "C20": ("; truth table of the input type gate; NaN-blind statistics rule", " F6: the type gate accepts a dtype class only for its own type; F5 also rejects validators deciding with statistics that drop missing values."),
 }
+
+# additions driven by the third wave of seeded changes (DESIGN.md §9.8)
+EXTRA3 = {
+    "C01": ("; pointer / id discipline in row loops", " W6-W9: a pointer element indexes an array only under a guard excluding -1, a data-valued kernel does not read forward references from a mapping it is still filling, pointers are compared with the sentinel only, ids are never used as truth values; IX also covers block offsets and pointer columns used as indices."),
+    "C02": ("; pointer / id discipline in row loops", " W6-W9 as for C01 (relabelling ids - e.g. a person with id 0 - and adding unrelated households cannot change results)."),
+    "C05": ("; value-position analysis of and/or in bool rules", " T2-bool: a rule declared bool never hands a number through the value position of and/or (a count column would be rejected when fed back)."),
+    "C07": ("; order-domain check of alias shortcuts; duplicate-key scan of the YAML node trees", " O7: the value for another date is copied from the date's own value only under a condition implying that no entry lies in between; O6 reports a branch that no longer looks the parameter up through the loader; Y0: no mapping has a key twice."),
+    "C08": ("; loader anchor rules shared with C07", " The loader / selection anchors O1-O7 are re-read here too, because the per-date environments are computed with a model of that code."),
+    "C10": ("; spec immutability and unknown-key rules", " RO: setting up the rounding never changes the caller's spec; RW also rejects spec keys that nobody reads (a misspelt key is silently ignored)."),
+    "C11": ("; kernel/function-name agreement", " S-kernel: grouped_<k> reduces with func='<k>'; IX also flags a pointer column used directly as an index."),
+    "C16": ("; cap-dominance, capped-alias and clamped-difference rules", " B: a result built from a capped term through min/max/selection only is bounded; S-alias: a function that caps an argument does not compute with the uncapped one; N2: what a transfer rule subtracts inside max(0, need - x) is provably non-negative (one known finding: losses entered as negative income lift ALG II above the need)."),
+    "C18": ("; no-rounding scan of the schedule machinery", " G0: the functions generating and evaluating schedules do no rounding (intercepts are the exact left limits)."),
+}
 NOT_APPLICABLE = {
     "C04": "Compares values of two runs under different target sets / debug options; the only structural handle (non-interference of `targets` with node definitions) lives in dict comprehensions keyed by computed strings and in the third-party `dags` package - no necessary condition that is both statically checkable and robust to behaviour-preserving refactoring was found (DESIGN.md §6).",
     "C12": "Whether the row scans in groupings.py compute the partition the unit definitions prescribe, for every pointer graph and row order, is a property of a data-dependent algorithm over runtime values; it needs execution or model checking, not static analysis (DESIGN.md §6). Structural by-products are decided under C15, C17 and C20.",
@@ -159,6 +172,9 @@ def main():
         if pid in EXTRA:
             c["technique"] = c["technique"] + EXTRA[pid][0]
             c["text"] = c["text"] + EXTRA[pid][1]
+        if pid in EXTRA3:
+            c["technique"] = c["technique"] + EXTRA3[pid][0]
+            c["text"] = c["text"] + EXTRA3[pid][1]
         checks.append({
             "property_id": pid,
             "quick_cmd": f"./vcheck {pid} --tier quick",
